@@ -1235,33 +1235,45 @@ isal_deflate_stateless_init(struct isal_zstream *stream)
         return;
 }
 
+static void
+hash_table_fill(uint16_t *hash_table, size_t size, uint16_t value)
+{
+        size_t i;
+
+        for (i = 0; i < size / sizeof(uint16_t); i++)
+                hash_table[i] = value;
+}
+
 void
 isal_deflate_hash(struct isal_zstream *stream, uint8_t *dict, uint32_t dict_len)
 {
-        /* Reset history to prevent out of bounds matches this works because
-         * dictionary must set at least 1 element in the history */
+        /* Reset history to prevent out of bounds matches: every entry points at
+         * the last byte of the dictionary (the byte just before the current
+         * position, which is total_in and not necessarily 0). This works
+         * because dictionary must set at least 1 element in the history */
         struct level_buf *level_buf = (struct level_buf *) stream->level_buf;
         uint32_t hash_mask = stream->internal_state.hash_mask;
+        uint16_t last = (uint16_t) (stream->total_in - 1);
 
         switch (stream->level) {
         case 3:
-                memset(level_buf->lvl3.hash_table, -1, sizeof(level_buf->lvl3.hash_table));
+                hash_table_fill(level_buf->lvl3.hash_table, sizeof(level_buf->lvl3.hash_table), last);
                 isal_deflate_hash_lvl3(level_buf->lvl3.hash_table, hash_mask, stream->total_in,
                                        dict, dict_len);
                 break;
 
         case 2:
-                memset(level_buf->lvl2.hash_table, -1, sizeof(level_buf->lvl2.hash_table));
+                hash_table_fill(level_buf->lvl2.hash_table, sizeof(level_buf->lvl2.hash_table), last);
                 isal_deflate_hash_lvl2(level_buf->lvl2.hash_table, hash_mask, stream->total_in,
                                        dict, dict_len);
                 break;
         case 1:
-                memset(level_buf->lvl1.hash_table, -1, sizeof(level_buf->lvl1.hash_table));
+                hash_table_fill(level_buf->lvl1.hash_table, sizeof(level_buf->lvl1.hash_table), last);
                 isal_deflate_hash_lvl1(level_buf->lvl1.hash_table, hash_mask, stream->total_in,
                                        dict, dict_len);
                 break;
         default:
-                memset(stream->internal_state.head, -1, sizeof(stream->internal_state.head));
+                hash_table_fill(stream->internal_state.head, sizeof(stream->internal_state.head), last);
                 isal_deflate_hash_lvl0(stream->internal_state.head, hash_mask, stream->total_in,
                                        dict, dict_len);
         }
